@@ -107,3 +107,28 @@ def run_scenario(name, src, want_out, want, ctx):
 
 def extra(tier, ctx):
     return [run_scenario(n, s_, o, w, ctx) for (n, s_, o, w) in SCENARIOS]
+
+
+def shrink(case, still_fails):
+    """Mode M networks are not shrunk structurally (a network without senders, or whose closer is gone, deadlocks for
+    reasons of its own); everything else goes through the generic shrinker."""
+    from .. import shrink as _shrink
+    if isinstance(case, tuple) and case and isinstance(case[0], dict) and case[0].get("mode") == "M":
+        net, sel = case
+        best = net
+        for key in ("work",):
+            cand = dict(best)
+            cand[key] = [0] * len(best[key])
+            if still_fails((cand, sel)):
+                best = cand
+        for i in range(len(best["counts"])):
+            while best["counts"][i] > 1:
+                cand = dict(best)
+                cand["counts"] = list(best["counts"])
+                cand["counts"][i] -= 1
+                if still_fails((cand, sel)):
+                    best = cand
+                else:
+                    break
+        return (best, sel)
+    return _shrink.shrink(case, still_fails, 1500)
